@@ -12,7 +12,10 @@ import subprocess
 import sys
 import tempfile
 
-REPO = os.environ.get("VERIF_REPO", "/repo")
+REPO = (os.environ.get("VERIF_REPO") or "/repo")
+if not os.path.isdir(os.path.join(REPO, "scriptplan")):
+    # (an empty or wrong VERIF_REPO once made a check copy the whole file system into its scratch directory)
+    raise SystemExit("VERIF_REPO=%r is not a checkout of scriptplan" % REPO)
 PY = os.environ.get("VERIF_PY", "/venv/bin/python")
 GUARD = "SCRIPTPLAN_VERIF"
 
